@@ -1963,6 +1963,22 @@ int EGLPNUM_TYPENAME_ILLlib_chgsense (
 	EGLPNUM_TYPENAME_ILLlpdata *qslp = lp->O;
 	EGLPNUM_TYPENAME_ILLmatrix *A = &(lp->O->A);
 
+	/* refuse the whole call before touching anything */
+	for (i = 0; i < num; i++)
+	{
+		if (rowlist[i] < 0 || rowlist[i] >= qslp->nrows)
+		{
+			QSlog("EGLPNUM_TYPENAME_ILLlib_chgsense called with bad row index: %d", rowlist[i]);
+			rval = 1;
+			ILL_CLEANUP;
+		}
+		if (sense[i] != 'L' && sense[i] != 'G' && sense[i] != 'E' && sense[i] != 'R')
+		{
+			QSlog("illegal sense %c in EGLPNUM_TYPENAME_ILLlib_chgsense", sense[i]);
+			rval = 1;
+			ILL_CLEANUP;
+		}
+	}
 	for (i = 0; i < num; i++)
 	{
 		j = qslp->rowmap[rowlist[i]];
